@@ -17,10 +17,12 @@ import (
 	"fmt"
 	"io"
 	"net"
+	"os"
 	"regexp"
 	"sort"
 	"strconv"
 	"strings"
+	"syscall"
 	"sync"
 	"time"
 
@@ -259,7 +261,7 @@ func (w *World) Dial(ctx context.Context, addr string) (net.Conn, error) {
 			w.Trans = append(w.Trans, Entry{Idx: w.nextIdx(), Caller: caller, Host: host, Kind: "SRefused", Resp: "(RErr EConn)", Err: "refused", TStart: now, TEnd: now})
 		}
 		w.Mu.Unlock()
-		return nil, fmt.Errorf("dial tcp %s: connect: connection refused", addr)
+		return nil, &net.OpError{Op: "dial", Net: "tcp", Err: os.NewSyscallError("connect", syscall.ECONNREFUSED)}
 	}
 	client, server := net.Pipe()
 	n.conns[server] = true
